@@ -1,7 +1,6 @@
 package vh
 
 import (
-	"net"
 	"net/http"
 	"strings"
 
@@ -346,7 +345,7 @@ func runCorr(rec *Rec, sc *CorrScenario, n int) {
 		cli.Close()
 		cli = erpc.NewPeer(erpc.PeerConfig{DefaultBodyCodec: "json"}, wsmixer.NewDialPlugin("/"))
 		corrRoutes(cli)
-		lis, err := net.Listen("tcp", "127.0.0.1:0")
+		lis, err := LoopListen()
 		if err != nil {
 			rec.Emit("SetupFailed")
 			return
